@@ -52,7 +52,7 @@ class WriterRecord:
     """The record dict a JSON writer hands to _write_content: unconditional keys (dict literal) and
     optional keys (stores on some paths), with the typing context of the write method."""
 
-    def __init__(self, repo, cls: str, rule: str):
+    def __init__(self, repo, cls: str, rule: str, chk=None):
         self.repo, self.cls = repo, cls
         ci, fn = repo.method(cls, 'write', rule)
         self.mod, self.fn = ci.module, fn
@@ -80,6 +80,26 @@ class WriterRecord:
                 raise AnalysisError(rule, self.qual, 'record argument is not a local name')
             name = arg.id
             # the dict literal assigned to that local in the method body
+            binds = [n for n in ast.walk(fn) if isinstance(n, ast.Assign) and len(n.targets) == 1 and isinstance(n.targets[0], ast.Name) and n.targets[0].id == name]
+            persistent = [n for n in binds if isinstance(n.value, ast.Attribute) and isinstance(n.value.value, ast.Name) and n.value.value.id == 'self']
+            if persistent and chk is not None:
+                # the record object outlives the call: a key stored for one board only (under an `if`) stays in the record of later boards
+                cond_keys = []
+                for n in ast.walk(fn):
+                    if isinstance(n, ast.If):
+                        for x in ast.walk(n):
+                            if isinstance(x, ast.Assign) and isinstance(x.targets[0], ast.Subscript) and isinstance(x.targets[0].value, ast.Name) \
+                                    and x.targets[0].value.id == name and isinstance(x.targets[0].slice, ast.Constant):
+                                cond_keys.append(x.targets[0].slice.value)
+                removed = {x.args[0].value for x in ast.walk(fn) if isinstance(x, ast.Call) and isinstance(x.func, ast.Attribute) and x.func.attr == 'pop'
+                           and isinstance(x.func.value, ast.Name) and x.func.value.id == name and x.args and isinstance(x.args[0], ast.Constant)}
+                cleared = any(isinstance(x, ast.Call) and isinstance(x.func, ast.Attribute) and x.func.attr == 'clear' and isinstance(x.func.value, ast.Name)
+                              and x.func.value.id == name for x in ast.walk(fn))
+                stale = [k for k in cond_keys if k not in removed]
+                if stale and not cleared:
+                    chk.fail(rule, repo.where(ci.module, persistent[0]), self.qual, f'record kept in `{ast.unparse(persistent[0].value)}` across writes; key {stale[0]!r} stored conditionally',
+                             f'`{ast.unparse(persistent[0])}`: one record object is reused for every board, and {stale} is stored only when given and never removed - a board '
+                             f'written without it after a board that had it is logged (and read back) with the EARLIER board\'s {stale[0]}')
             lits = [n for n in ast.walk(fn) if isinstance(n, ast.Assign) and len(n.targets) == 1 and
                     isinstance(n.targets[0], ast.Name) and n.targets[0].id == name and isinstance(n.value, ast.Dict)]
             if len(lits) != 1 or not isinstance(parent(lits[0]), ast.FunctionDef):
